@@ -721,6 +721,25 @@ class PortalRun:
     # ---- property monitors on the implementation's history (independent of the model) -----------------------
     def _monitor_step(self, code, k, a, b, c, d, res, before_int):
         rec = self.recs.get(k) if code in (ISSUE, LAND, STEP, REAP, FCANCEL, CLAND) else None
+        # -- F39: a cancelled future whose task has ended must be reported to waiters (wait / as_completed), whoever
+        #    cancelled it
+        for r in self.recs.values():
+            if r.task is not None and r.task.done() and r.fut is not None and r.fut.cancelled() \
+                    and not getattr(r, "_unreported_flagged", False):
+                by = "its caller" if r.fcancel_true else "the portal"
+                if not reported_done(r.fut):
+                    r._unreported_flagged = True
+                    self.mon.append(f"the future of call {r.k} was cancelled by {by} and its task has ended, but "
+                                    f"concurrent.futures.wait() does not report it as done (waiters never notified)")
+                elif not yielded_by_as_completed(r.fut):
+                    r._unreported_flagged = True
+                    self.mon.append(f"the cancelled future of call {r.k} is not yielded by concurrent.futures.as_completed()")
+                else:
+                    self.flags.add("cancelled_by_caller_reported" if r.fcancel_true else "cancelled_by_portal_reported")
+        if code == LOOPEND and res == 7:
+            self.flags.add("loop_end")
+        if code in (LAND, CLAND) and res == 10:
+            self.flags.add("landed_after_loop_end")
         # -- nobody is cancelled without a cause: a task may receive a cancellation only because its own future was
         #    cancelled by its caller or because the whole portal was told to cancel (stop(cancel_remaining=True), an
         #    exception leaving the context's body, a BaseException out of a callable)
@@ -905,10 +924,28 @@ class PortalRun:
                             f"{len(self.tg._tasks)} tasks in the group, nothing runnable (deadlock)")
         for rec in self.recs.values():
             for t, box, h in rec.cancel_threads:
-                t.join(self._tw())
+                lost = rec.cancel_lost and h is not None and h is rec.cancel_handle
+                t.join(0.15 if lost else self._tw())
                 if t.is_alive():
-                    self.mon.append(f"thread cancelling the future of call {rec.k} is left hanging")
+                    if lost:
+                        self.known_hits.append(f"Future.cancel() on the future of call {rec.k} never returns: its scope.cancel was "
+                                               f"handed to the loop after the loop's last iteration (bounded join expired)")
+                    else:
+                        self.mon.append(f"thread cancelling the future of call {rec.k} is left hanging")
+                elif lost:
+                    self.flags.add("f40_history_did_not_hang")
             if rec.thread is not None:
+                if rec.lost:
+                    rec.thread.join(0.15)      # bounded: the thread is expected to sit in run_sync's f.result()
+                    if rec.thread.is_alive():
+                        self.known_hits.append(f"caller thread of call {rec.k} is left hanging: it passed _check_running before the "
+                                               f"portal was stopped and handed its call to the loop after the loop's last iteration "
+                                               f"- the call is neither run nor refused (bounded join expired)")
+                    else:
+                        self.flags.add("f40_history_did_not_hang")
+                        if not (rec.caller and rec.caller[0] == "exc" and isinstance(rec.caller[1], RuntimeError)):
+                            self.mon.append(f"call {rec.k} handed over after the loop's last iteration ended with {rec.caller!r}")
+                    continue
                 rec.thread.join(self._tw() if rec.caller is None else 0.5)
                 if rec.thread.is_alive():
                     self.mon.append(f"caller thread of call {rec.k} is left hanging (phase {self.phase(rec)})")
@@ -970,7 +1007,8 @@ def random_case(rng: random.Random, nsteps: int, prefix: list[int] | None = None
     for a monitor-failing input around a model/implementation divergence)."""
     ncalls = ncalls or rng.choice([1, 2, 2, 3, 3, 4])
     w = {ISSUE: 4, LAND: 4, STEP: 5, REAP: 3, FCANCEL: rng.choice([0.5, 1.5, 3]), CLAND: 3,
-         STOP: rng.choice([0.1, 0.4, 1.0]), HEXIT: rng.choice([0.2, 0.6, 1.5]), HRESUME: rng.choice([1, 3])}
+         STOP: rng.choice([0.1, 0.4, 1.0]), HEXIT: rng.choice([0.2, 0.6, 1.5]), HRESUME: rng.choice([1, 3]),
+         LOOPEND: rng.choice([0.2, 1.0, 3.0])}
     w_own = rng.choice([0, 0.7, 2.0])      # how often a callable's own outcome is a foreign cancellation
     r = PortalRun(ncalls)
     val = 10
@@ -979,6 +1017,8 @@ def random_case(rng: random.Random, nsteps: int, prefix: list[int] | None = None
             r.do(*prefix[i:i + 6])
         for _ in range(nsteps):
             en = r.enabled()
+            if not en:
+                break                              # the loop has ended and every thread has acted
             ws = []
             for x in en:
                 wx = w[x[0]]
@@ -1015,6 +1055,8 @@ def random_case(rng: random.Random, nsteps: int, prefix: list[int] | None = None
                 r.do(code, 0, e[1])
             elif code == HRESUME:
                 r.do(HRESUME)
+            elif code == LOOPEND:
+                r.do(LOOPEND)
             else:
                 r.do(code, e[1])
         r.scripted_len = len(r.ops)
@@ -1025,7 +1067,7 @@ def random_case(rng: random.Random, nsteps: int, prefix: list[int] | None = None
 
 
 def case_of(r: PortalRun) -> list[int]:
-    return [1, 1, r.ncalls] + r.ops
+    return [1, 1, 1, r.ncalls] + r.ops
 
 
 def readable(ops: list[int]) -> list:
@@ -1094,6 +1136,8 @@ def exhaustive_cases(ncalls: int, depth: int, kinds=(KCORO,), budget: int = 1000
             return [[code, 0, e[1], 0, 0, 0]]
         if code == HRESUME:
             return [[HRESUME, 0, 0, 0, 0, 0]]
+        if code == LOOPEND:
+            return [[LOOPEND, 0, 0, 0, 0, 0]]
         return [[code, e[1], 0, 0, 0, 0]]
 
     def rec_(prefix: list[int]):
@@ -1390,6 +1434,15 @@ def e2e_scenario(rng: random.Random, backend_opts: dict, label: str):
                 mon.append(f"{who}: task was cancelled although neither its future was cancelled nor cancel_remaining requested")
             if not got_cancel and not (c.api == "start" and c.started is not None and c.caller[0] == "ok"):
                 mon.append(f"{who}: task cancelled but caller got {c.caller!r}")
+        if c.fut is not None and c.fut.cancelled():
+            # F39: whoever cancelled it, once the task has ended (the context has been left) the waiters are told
+            if c.fut not in cf_wait([c.fut], timeout=1.0).done:
+                mon.append(f"{who}: its future is cancelled and its task has ended but concurrent.futures.wait() never "
+                           f"reports it as done (cancelled by {'the caller' if c.cancel_ret else 'the portal / the callable'})")
+            elif not yielded_by_as_completed(c.fut):
+                mon.append(f"{who}: its cancelled future is not yielded by as_completed()")
+            else:
+                flags.add("cancelled_future_reported")
         if c.cancel_ret is True:
             flags.add("future_cancelled")
             if c.fut is not None and not c.fut.cancelled():
@@ -1592,6 +1645,61 @@ def e2e_two_phase_stop(rng: random.Random, backend_opts: dict, label: str):
     return mon, desc, flags
 
 
+def e2e_land_after_loop_end(label: str):
+    """F40 end to end on the stock loop, forced deterministically with harness-side wrappers only: a caller thread is held
+    between its `_check_running()` and the hand-over (wrapper around the instance's `_check_running`); the owner leaves
+    start_blocking_portal(); the caller is released when the portal thread is about to call `loop.close()` (wrapper around
+    that loop's `close`), i.e. after the loop's last iteration.  Returns (hangs: bool, other monitor messages, description)."""
+    from anyio.from_thread import start_blocking_portal
+
+    mon: list[str] = []
+    issued, go = threading.Event(), threading.Event()
+    res: dict = {}
+    gated: dict = {}
+    at_close = {"ready": None}
+    with start_blocking_portal() as portal:
+        orig = portal._check_running
+
+        def gated_check():
+            orig()
+            if get_ident() == gated.get("id"):
+                issued.set()
+                go.wait(E2E_WAIT * 2)
+
+        portal._check_running = gated_check
+
+        def caller():
+            gated["id"] = get_ident()
+            try:
+                res["r"] = portal.call(lambda: 1)
+            except BaseException as e:  # noqa: BLE001
+                res["e"] = e
+
+        t = threading.Thread(target=caller, name=f"c15-f40-caller-{label}", daemon=True)
+        t.start()
+        if not issued.wait(E2E_WAIT):
+            mon.append("harness: caller did not reach the gate")
+        loop = portal._token.native_token
+        orig_close = loop.close
+
+        def close():
+            go.set()                       # the loop has run its last iteration; now the caller hands its call over
+            deadline = time.time() + 2.0
+            while time.time() < deadline and not loop._ready and t.is_alive():
+                time.sleep(0.001)
+            at_close["ready"] = len(loop._ready)
+            orig_close()
+
+        loop.close = close
+    t.join(1.0)                            # bounded: a hanging caller must not block the check (daemon thread)
+    hangs = t.is_alive()
+    if not hangs and not isinstance(res.get("e"), RuntimeError):
+        mon.append(f"a call handed over after the loop's last iteration ended with {res!r} instead of RuntimeError")
+    go.set()
+    return hangs, mon, {"label": label, "scenario": "F40: _check_running passed, stop, loop ends, hand-over",
+                        "handles_in_ready_queue_at_close": at_close["ready"], "caller_result": repr(res)}
+
+
 def e2e_cancel_race(rounds: int, budget_s: float, backend_opts: dict, label: str):
     """Probabilistic detector for preemptive interleavings the model does not have: caller threads cancel the
     returned future while the task completes (switch interval 1e-6).  Whatever the interleaving, every future must end
@@ -1644,6 +1752,8 @@ def e2e_cancel_race(rounds: int, budget_s: float, backend_opts: dict, label: str
                             if c:
                                 if not f.cancelled():
                                     errors.append("Future.cancel() returned True but the future is not cancelled")
+                                elif f not in cf_wait([f], timeout=E2E_WAIT).done:
+                                    errors.append("a future cancelled by its caller is never reported by concurrent.futures.wait()")
                                 with lock:
                                     stats["cancel_won"] += 1
                             else:
@@ -1686,6 +1796,24 @@ def e2e_cancel_race(rounds: int, budget_s: float, backend_opts: dict, label: str
 
 
 # ==================================================================================================================
+F40_WHAT = ("a caller thread that passed _check_running() (start_task_soon/start_task/call, or the scope.cancel marshalled by a "
+            "foreign Future.cancel()) but reaches loop.call_soon_threadsafe only after the portal was stopped and the loop ran its "
+            "last iteration hangs forever: the call is neither run nor refused [F40, predicate landed_after_loop_end]")
+
+
+def f40_is_known() -> bool:
+    """known_findings.json is only ever read: is F40's predicate recorded as a known finding of C15?"""
+    try:
+        data = json.loads((core.VERIF / "known_findings.json").read_text())
+    except Exception:  # noqa: BLE001
+        return False
+    for f in data.get("findings", []):
+        if f.get("property") == "C15" and f.get("status") == "known" \
+                and (f.get("match") or {}).get("predicate") == "landed_after_loop_end":
+            return True
+    return False
+
+
 def check(tier: str) -> int:
     rep = core.Report("C15", tier)
     rep.assumptions = core.TRUSTED_BASE_COMMON + [
@@ -1752,6 +1880,27 @@ def check(tier: str) -> int:
     impl_rejected = sum(1 for r in runs for i in range(0, len(r.outs), NOBS_GLOBAL + NOBS_CALL * r.ncalls) if r.outs[i] in (98, 99))
     monitor_hits = [(r, msg) for r in runs for msg in r.mon]
 
+    # hangs of histories matching the known finding's predicate (evaluated by the MODEL on the executed op list:
+    # the `lost_any` observable of the last step = Portal.landed_after_loop_end): KNOWN-FINDING, not a violation;
+    # a hang the predicate does not explain, or F40 not being recorded as known, stays a violation
+    known_ok = f40_is_known()
+    n_known = 0
+    known_example = None
+    for r, m in zip(runs, model_outs):
+        if not r.known_hits:
+            continue
+        w = NOBS_GLOBAL + NOBS_CALL * r.ncalls
+        predicate = len(m) >= w and m[len(m) - w + 8] == 1
+        if known_ok and predicate:
+            n_known += 1
+            known_example = known_example or r
+            rep.known_finding(F40_WHAT)
+        else:
+            why = "the model's predicate landed_after_loop_end does not hold for this history" if known_ok \
+                else "F40 is not recorded as a known finding in known_findings.json"
+            monitor_hits += [(r, msg + f" ({why})") for msg in r.known_hits]
+            r.mon += r.known_hits
+
     # A disagreement without a monitor hit: the implementation is NOT abandoned at the point of divergence -- every case
     # above was executed to its end (including the drain) on the implementation alone and the monitors ran over the
     # whole trace.  In addition, search for a monitor-failing input around the divergence: random continuations of the
@@ -1781,6 +1930,18 @@ def check(tier: str) -> int:
     for name in backends:
         rmon, rstats = e2e_cancel_race(race_rounds, race_budget, {"use_uvloop": True} if name == "uvloop" else {}, name)
         races.append((rmon, rstats))
+    f40_e2e = []
+    for i in range(1 if tier == "quick" else 4):
+        hangs, fmon, fdesc = e2e_land_after_loop_end(f"stock-f40-{i}")
+        f40_e2e.append({"hangs": hangs, **fdesc})
+        if fmon:
+            e2e.append((fmon, fdesc, set()))
+        if hangs:
+            if known_ok:
+                rep.known_finding(F40_WHAT)
+            else:
+                e2e.append((["caller thread left hanging after a hand-over that came after the loop's last iteration "
+                             "(F40 is not recorded as a known finding)"], fdesc, set()))
     lap("end-to-end runs")
     e2e_hits = [(mon, desc) for mon, desc, _ in e2e if mon]
 
@@ -1839,7 +2000,7 @@ def check(tier: str) -> int:
     for _, _, fl in e2e:
         for f in fl:
             e2e_flags[f] = e2e_flags.get(f, 0) + 1
-    interesting = {"own_cancel_with_others_in_flight", "two_phase_stop_with_running_calls", "interrupt", "future_cancel_interrupts_task", "land_during_exit_checkpoint", "land_during_exit_wait",
+    interesting = {"landed_after_loop_end", "cancelled_by_caller_reported", "own_cancel_with_others_in_flight", "two_phase_stop_with_running_calls", "interrupt", "future_cancel_interrupts_task", "land_during_exit_checkpoint", "land_during_exit_wait",
                    "land_refused_group_inactive", "issue_refused_after_stop", "result_dropped_cancelled", "host_rewaits",
                    "future_cancel_after_stop", "started"}
     distinct = len({tuple(c) for c, r in zip(cases, runs) if r.flags & interesting})
@@ -1851,7 +2012,7 @@ def check(tier: str) -> int:
             nsteps += 1
     rep.coverage.update({
         "trusted_base": rep.assumptions,
-        "model_variant_checked": "init true true (f4_fixed, fc_fixed): both repairs 08c4569 and 2158065 are in the tree; "
+        "model_variant_checked": "init true true true (f4_fixed, fc_fixed, fn_fixed): repairs 08c4569, 2158065 and 56e7f66 are in the tree; "
                                  "the pinned variants exist only for the ..._refuted_pinned witnesses",
         "evaluations": len(runs) + len(e2e),
         "programs": len(runs),
@@ -1876,6 +2037,10 @@ def check(tier: str) -> int:
         "model_rejected_ops": rejected,
         "impl_rejected_ops": impl_rejected,
         "monitor_hits": len(monitor_hits),
+        "known_finding_cases": {"F40": n_known},
+        "known_finding_example": ({"ncalls": known_example.ncalls, "ops": readable(known_example.ops),
+                                   "observed": known_example.known_hits[:2]} if known_example else None),
+        "known_finding_e2e": f40_e2e,
         "continuations_explored_around_divergences": explored,
         "phase_seconds": phase_s,
         "e2e": {"scenarios": len(e2e), "backends": backends, "monitor_hits": len(e2e_hits), "reached": e2e_flags,
@@ -1887,12 +2052,12 @@ def check(tier: str) -> int:
         "samples": [{"ncalls": runs[i].ncalls, "ops": readable(runs[i].ops)[:25], "outs": runs[i].outs[:50]} for i in idx[:2]]
                    + [e2e[0][1]] if e2e else [],
     })
-    for need in sorted(interesting | {"own_cancel_raise", "own_cancel_awaited_future", "own_cancel_native_task_cancel",
+    for need in sorted(interesting | {"loop_end", "cancelled_by_portal_reported", "own_cancel_raise", "own_cancel_awaited_future", "own_cancel_native_task_cancel",
                                       "call_accepted_after_own_cancel", "left", "answer_value", "answer_exception", "answer_cancelled", "stop_cancel_remaining",
                                       "future_cancel_before_first_step", "interrupt_swallowed", "land_after_stop_accepted"}):
         if not flags.get(need):
             rep.notes.append(f"generator self-check: predicate {need} never reached")
-    for need in ("own_cancel_raise", "own_cancel_await", "own_cancel_native", "probe_before_stop", "two_phase_stop", "refused", "task_cancelled", "future_cancelled", "value", "exception", "started", "cancel_remaining",
+    for need in ("cancelled_future_reported", "own_cancel_raise", "own_cancel_await", "own_cancel_native", "probe_before_stop", "two_phase_stop", "refused", "task_cancelled", "future_cancelled", "value", "exception", "started", "cancel_remaining",
                  "finished_after_stop_requested"):
         if not e2e_flags.get(need):
             rep.notes.append(f"e2e generator self-check: predicate {need} never reached")
